@@ -63,10 +63,56 @@ def translate(repo):
     return "(tmpl " + " ".join(names) + ")"
 
 
+# ---- utility/nd_map.hpp: tail, cat and the three branches of nd_map (lean/CovfieModel/Model/NdScript.lean)
+def _lit(x):
+    return re.escape(x)
+
+
+_FOR = _lit("for(typenameTuple::value_typei=static_cast<typenameTuple::value_type>(0);i<s.at(0);++i)")
+ND = [
+    (_lit("template<typenameT,std::size_tN,std::size_t...Ns>autotail_impl(std::index_sequence<Ns...>,[[maybe_unused]]constarray::array<T,N>&t)"
+          "{returnarray::array<T,N-1>{t.at(Ns+1u)...};}"), "tailImpl"),
+    (_lit("template<typenameT,std::size_tN>autotail(constarray::array<T,N>&t){returntail_impl(std::make_index_sequence<N-1u>(),t);}"), "tail"),
+    (_lit("template<typenameT,std::size_tN1,std::size_tN2,std::size_t...Is1,std::size_t...Is2>array::array<T,N1+N2>cat_impl("
+          "constarray::array<T,N1>&a1,constarray::array<T,N2>&a2,std::index_sequence<Is1...>,std::index_sequence<Is2...>)"
+          "{return{a1.at(Is1)...,a2.at(Is2)...};}"), "catImpl"),
+    (_lit("template<typenameT,std::size_tN1,std::size_tN2>array::array<T,N1+N2>cat(constarray::array<T,N1>&a1,constarray::array<T,N2>&a2)"
+          "{returncat_impl(a1,a2,std::make_index_sequence<N1>(),std::make_index_sequence<N2>());}"), "cat"),
+    (_lit("template<typenameTuple>voidnd_map(std::function<void(Tuple)>f,Tuples){"), "ndMap"),
+    (_lit("ifconstexpr(Tuple::dimensions==0u){f({});}"), "nd0"),
+    (_lit("elseifconstexpr(Tuple::dimensions==1u){") + _FOR + _lit("{f(array::array<typenameTuple::value_type,1>{i});}}"), "nd1"),
+    (_lit("else{usingtail_t=decltype(tail(std::declval<Tuple>()));") + _FOR
+     + _lit("{nd_map<tail_t>([f,i](tail_tr){f(cat(array::array<typenameTuple::value_type,1>{i},r));},tail(s));}}}"), "ndN"),
+]
+
+
+def translate_ndmap(repo):
+    try:
+        text = strip_comments((Path(repo) / CORE / "utility/nd_map.hpp").read_text())
+    except OSError as e:
+        raise Untranslatable(str(e))
+    m = re.search(r"namespace\s+covfie::utility\s*\{", text)
+    if not m:
+        raise Untranslatable("namespace covfie::utility not found")
+    t = re.sub(r"\s+", "", text[m.end():])
+    names = []
+    while t and t != "}":
+        for pat, name in ND:
+            mm = re.match(pat, t)
+            if mm:
+                names.append(name)
+                t = t[mm.end():]
+                break
+        else:
+            raise Untranslatable(f"declaration `{t[:110]}`")
+    return "(ndmap " + " ".join(names) + ")"
+
+
 if __name__ == "__main__":
     import sys
     repo = sys.argv[sys.argv.index("--repo") + 1] if "--repo" in sys.argv else "/repo"
-    try:
-        print("static_permutation", translate(repo))
-    except Untranslatable as e:
-        print("static_permutation UNTRANSLATABLE:", e)
+    for nm, fn in (("static_permutation", translate), ("nd_map_equations", translate_ndmap)):
+        try:
+            print(nm, fn(repo))
+        except Untranslatable as e:
+            print(nm, "UNTRANSLATABLE:", e)
